@@ -198,7 +198,7 @@ theorem log_local (K : List Str) (c : List Str) (ha : Alone logVerb c) : LocalTe
 def loggerKeys : List Str :=
   [str "at", str "to", str "be", str "in", str "flush", str "keep", str "cycle", str "size", str "reuse"]
 
-theorem logger_at : loggerClause (str "at") = clauseOf oneTok num (fun s v => { s with period := some v }) := by
+theorem logger_at : loggerClause (str "at") = clauseOf oneTok numF (fun s v => { s with period := some v }) := by
   funext toks s; rfl
 theorem logger_to : loggerClause (str "to") = clauseOf oneTok accept (fun s v => { s with prefix_ := v }) := by
   funext toks s; rfl
@@ -478,7 +478,7 @@ theorem do_local (fix : Bool) (K : List Str) (hK : ∀ k ∈ K, k ∈ doStops) (
 def serverKeys : List Str :=
   [str "at", str "to", str "be", str "in", str "rx", str "tx", str "per", str "for"]
 
-theorem server_at : serverClause (str "at") = clauseOf oneTok num (fun s v => { s with period := some v }) := by
+theorem server_at : serverClause (str "at") = clauseOf oneTok numF (fun s v => { s with period := some v }) := by
   funext toks s; rfl
 theorem server_to : serverClause (str "to") = clauseOf oneTok accept (fun s v => { s with prefix_ := v }) := by
   funext toks s; rfl
